@@ -551,6 +551,23 @@ theorem AllCalls.frame_fault {α : Type} {Ok : α → Prop} {p : Prog α} {q : P
       rw [ih _ (hp.2 _ (answer_err _ _)), step_frame env fs _ c _ (.fail f.e f.short) q (hp.1 fs)]
     · rw [ih _ (hp.2 _ (answer_exec env fs c)), step_frame env fs _ c _ .ok q (hp.1 fs)]
 
+/-- … stated in the demonic calculus: whatever holds of the node at `q` keeps holding, at every
+kill point and for every outcome of every call. -/
+theorem AllCalls.wpD_frame {α : Type} {Ok : α → Prop} {p : Prog α} {q : Path}
+    (hp : AllCallsR (Call.avoids q) Ok p) (env : Env) (fs : FS) (x : Option Node)
+    (hx : fs.get q = x) :
+    wpD env (fun s => s.get q = x) (fun _ s => s.get q = x) p fs := by
+  induction p generalizing fs with
+  | done a => exact ⟨hx, hx⟩
+  | sys c k ih =>
+    refine ⟨hx, fun t => (torn_frame env fs t c q (hp.1 fs)).trans hx, ?_⟩
+    intro fs' r hs
+    have ha : Answer c r := by
+      cases hs with
+      | ok => exact answer_exec env fs c
+      | fail e short => exact answer_err c e
+    exact ih r (hp.2 r ha) fs' ((step_frame env fs fs' c r hs q (hp.1 fs)).trans hx)
+
 /-- Killing a sequential composition: the cut falls into the first part or into the second. -/
 theorem crash_bind {α β : Type} (env : Env) (p : Prog α) (f : α → Prog β) (fs : FS) (n t : Nat) :
     crash env (Prog.bind p f) fs n t =
